@@ -1,7 +1,7 @@
 (* Properties/C12.v — Only the matching response is accepted over UDP. *)
 From RsdnsModel Require Import Base Cursor Names Labels Header Tracker RData Reader Client.
-From RsdnsModel.Spec Require Import NameText.
-From RsdnsModel.Proofs Require Import NameOrder ClientProofs.
+From RsdnsModel.Spec Require Import NameText WireName.
+From RsdnsModel.Proofs Require Import NameOrder ClientProofs MessageRT AcceptComplete.
 Open Scope N_scope.
 
 (* [std] selects the leaves translated from the blocking client or from the async template.
@@ -45,3 +45,29 @@ Theorem C12_accepted_question_is_asked : forall std id qname qtype qclass d fl,
     rd_question d true false r1 = (r2, Ok (OQuestion n qtype qclass)) /\
     valid_text n = true /\ fold_case n = fold_case (canon_text qname).
 Proof. exact accept_name_is_asked. Qed.
+
+(* The filter is not vacuous (the converse of C12_accept_sound on well-formed datagrams): a response
+   of 12..65535 octets whose header carries the query's id and announces exactly one question, with a
+   question standing behind the header ([question_stands], Proofs/MessageRT.v: a name in any legal
+   spelling with labels [sq_labels q], then QTYPE and QCLASS) of the asked type and class whose
+   decoded name equals the asked one (`==` against the text: case-insensitive, root dot optional),
+   IS accepted, with the datagram's own flags, by the filter of both client families. *)
+Theorem C12_genuine_response_accepted : forall std d q e h id qname,
+  lenN d <= 65535 -> 12 <= lenN d ->
+  read_header d (c_new d) = (c_set_pos (c_new d) 12, Ok h) ->
+  h_qd h = 1 -> h_an h <= 65535 -> h_ns h <= 65535 -> h_ar h <= 65535 -> h_id h = id ->
+  question_stands d 12 q e ->
+  name_eq_str (join_labels (map snd (sq_labels q))) qname = true ->
+  accept_datagram std id qname (sq_type q) (sq_class q) d = Ok (Some (h_flags h)).
+Proof. exact genuine_response_accepted. Qed.
+
+(* e.g. the 35-octet response of Proofs/MessageRT.v (id 0x1234, question "a." A IN) for the query
+   ("a", A, IN) with that id — and not for another id, name, type or class *)
+Example C12_filter_example :
+  accept_datagram true 4660 [x61] 1 1 example_msg = Ok (Some 33152) /\
+  accept_datagram false 4660 [x41; x2e] 1 1 example_msg = Ok (Some 33152) /\
+  accept_datagram true 4661 [x61] 1 1 example_msg = Ok None /\
+  accept_datagram true 4660 [x62] 1 1 example_msg = Ok None /\
+  accept_datagram true 4660 [x61] 28 1 example_msg = Ok None /\
+  accept_datagram false 4660 [x61] 1 3 example_msg = Ok None.
+Proof. vm_compute. repeat split. Qed.
